@@ -3,10 +3,12 @@
 import asyncio
 from contextlib import suppress
 from dataclasses import dataclass
-from typing import Any, Dict, Optional
+from functools import update_wrapper
+from typing import Any, Awaitable, Callable, Dict, Optional
 
 from asyncssh.connection import SSHClientConnection, connect
 from asyncssh.misc import (
+    ChannelOpenError,
     ConnectionLost,
     DisconnectError,
     HostKeyNotVerifiable,
@@ -33,6 +35,43 @@ class PluginTransportArgs(BasePluginTransportArgs):
     auth_strict_key: bool = True
     ssh_config_file: str = ""
     ssh_known_hosts_file: str = ""
+
+
+def _connection_errors_to_scrapli(
+    wrapped_open: Callable[["AsyncsshTransport"], Awaitable[None]],
+) -> Callable[["AsyncsshTransport"], Awaitable[None]]:
+    """
+    Decorate `open` so that a connection that cannot be made, or is lost while opening, is reported
+
+    Anything `open` does not deal with itself -- the socket errors asyncio reports (refused, reset,
+    unreachable, name resolution), a disconnect sent by the server or the connection simply going
+    away (asyncssh `DisconnectError`s), the server refusing the session, pty or shell (asyncssh
+    `ChannelOpenError`) -- is raised as `ScrapliConnectionError` rather than as is.
+
+    Args:
+        wrapped_open: the transport `open` method
+
+    Returns:
+        decorate: decorated `open`
+
+    Raises:
+        N/A
+
+    """
+
+    async def decorate(self: "AsyncsshTransport") -> None:
+        try:
+            await wrapped_open(self)
+        except (DisconnectError, ChannelOpenError, OSError) as exc:
+            msg = (
+                "failed to open connection; typically means the device refused or closed the "
+                f"connection: {exc}"
+            )
+            self.logger.critical(msg)
+            raise ScrapliConnectionError(msg) from exc
+
+    update_wrapper(wrapper=decorate, wrapped=wrapped_open)
+    return decorate
 
 
 class AsyncsshTransport(AsyncTransport):
@@ -152,6 +191,7 @@ class AsyncsshTransport(AsyncTransport):
                 f"{self._base_transport_args.host} in known_hosts but public key does not match!"
             )
 
+    @_connection_errors_to_scrapli
     async def open(self) -> None:
         self._pre_open_closing_log(closing=False)
 
